@@ -50,9 +50,9 @@ Family == {c \in Cases :
 BodyFields(c) == IF BodyVerb(c.verb) THEN <<"b">> ELSE <<>>
 Fields(c) == CASE c.route = "pq" -> <<"p", "q", "rq", "rep", "oq", "rrep", "ropt">> \o BodyFields(c)
                [] c.route = "p" -> <<"p">> \o BodyFields(c)
-               [] c.route = "deep" -> <<"p", "p2">> \o BodyFields(c)
+               [] c.route = "deep" -> <<"p", "p_2">> \o BodyFields(c)
                [] c.route = "default" -> <<"b">>
-PathVars(c) == CASE c.route \in {"pq", "p"} -> <<"p">> [] c.route = "deep" -> <<"p", "p2">> [] OTHER -> <<>>
+PathVars(c) == CASE c.route \in {"pq", "p"} -> <<"p">> [] c.route = "deep" -> <<"p", "p_2">> [] OTHER -> <<>>
 Query(c) == IF c.route = "pq" THEN <<[field |-> "q", name |-> "q", required |-> FALSE], [field |-> "rq", name |-> "rq", required |-> TRUE],
                                     [field |-> "rep", name |-> "rep", required |-> FALSE], [field |-> "oq", name |-> "oq", required |-> FALSE],
                                     [field |-> "rrep", name |-> "rrep", required |-> TRUE], [field |-> "ropt", name |-> "ropt", required |-> TRUE]>> ELSE <<>>
